@@ -17,7 +17,7 @@ COMMON_ASSUME = [
 ]
 
 PROPS = {
-    "C01": dict(monitor=D1, level="other", corr=["driver", "cauchy"],
+    "C01": dict(monitor=D1, level="other", corr=["driver", "cauchy", "subspace"],
                 rule="strictly convex box problems (qp/qp4/qpsp, cond<=1e4, n<=12, boxes finite/mixed/inf/tight, starts interior/face/vertex, maxcor 1..10) run with ftol=0, gtol=1e-6; "
                      "non-trivial = start has a variable on a bound with the gradient pushing outward and >=2 iterations; distinct by (problem seed, maxcor)",
                 explanation="partial proof + exploration: Coq decides the exits of a run with ftol=0 (C01_exits: never the relative-reduction message; ABNORMAL only from a single-point memory), projgr=0 <-> KKT, and strict progress of the generalized Cauchy point at non-stationary points; convergence of the floating-point iteration itself is explored by the search, not proved",
